@@ -402,6 +402,67 @@ namespace {
         }
     }
 
+    // call_once after a throw (F19): the thrower is delayed between its two hand-back steps (hook
+    // 930).  With the original order (status first, event second) the next runner's reset() is
+    // overtaken by the late set(); all waiting callers then spin without yielding and the run of
+    // the callable, which yields, never gets a worker again: the watchdog reports once_retry:stuck.
+    void once_hook(int site, void const*, std::uint64_t, std::uint64_t)
+    {
+        if (site != 930) return;
+        auto t0 = clk::now();
+        while (clk::now() - t0 < 300us) {}
+    }
+    void once_retry_cases(ex::thread_pool_scheduler& sched, vctl::Rng& rng, int ncases)
+    {
+        g_section = "once_retry";
+        pika::verif::hook.store(&once_hook, std::memory_order_release);
+        for (int cs = 0; cs < ncases; ++cs)
+        {
+            int M = 10 + (int) rng.below(5);
+            int const F = 1;    // the first run throws at once; callers keep arriving for 600 us
+            std::vector<int> late(M);
+            for (auto& x : late) x = 20 + (int) rng.below(580);
+            late[0] = 0;
+            pika::once_flag flag;
+            std::atomic<int> runs{0}, successes{0}, thrown{0}, returned{0}, finished{0};
+            auto body = [&] {
+                int r = runs.fetch_add(1);
+                if (r < F) throw std::runtime_error("once body");
+                for (int k = 0; k < 30; ++k)
+                {
+                    auto t1 = clk::now();
+                    while (clk::now() - t1 < 5us) {}
+                    pika::this_thread::yield();
+                }
+                ++successes;
+            };
+            auto const t0 = clk::now();
+            for (int i = 0; i < M; ++i)
+                spawn(sched, [&, i] {
+                    while (clk::now() - t0 < std::chrono::microseconds(late[i])) pika::this_thread::yield();
+                    try
+                    {
+                        pika::call_once(flag, body);
+                        ++returned;
+                    }
+                    catch (std::runtime_error const&)
+                    {
+                        ++thrown;
+                    }
+                    tick();
+                    ++finished;
+                });
+            wait_for(finished, M);
+            if (successes.load() != 1 || thrown.load() != F || returned.load() != M - F)
+                monitor("once:counts",
+                    "retry case=" + std::to_string(cs) + " callers=" + std::to_string(M) + " throwing_runs=" + std::to_string(F) +
+                        ": runs=" + std::to_string(runs.load()) + " successes=" + std::to_string(successes.load()) +
+                        " rethrown=" + std::to_string(thrown.load()) + " returned=" + std::to_string(returned.load()));
+            std::printf("STAT once_retry case=%d callers=%d throws=%d\n", cs, M, F);
+        }
+        pika::verif::hook.store(nullptr, std::memory_order_release);
+    }
+
     // ------------------------------------------------------------------ event
     void event_cases(ex::thread_pool_scheduler& sched, vctl::Rng& rng, int ncases)
     {
@@ -487,6 +548,44 @@ namespace {
         }
         std::fflush(stdout);
     }
+
+    // ------------------------------------------------------------------ OSEQ
+    // one OS thread calls call_once several times on one flag; plan[i] says whether the i-th run of
+    // the callable throws.  The model replays the calls with the same outcomes (oracle).
+    void once_sequential(vctl::Rng& rng, int ncases)
+    {
+        g_section = "once_seq";
+        for (int cs = 0; cs < ncases; ++cs)
+        {
+            int K = 1 + (int) rng.below(6);
+            std::string plan;
+            for (int i = 0; i < K; ++i) plan.push_back(rng.chance(2, 5) ? '1' : '0');    // 1 = throws
+            pika::once_flag flag;
+            std::ostringstream ev;
+            int runs = 0;
+            for (int k = 0; k < K; ++k)
+            {
+                try
+                {
+                    pika::call_once(flag, [&] {
+                        ev << "B";
+                        bool th = plan[runs++] == '1';
+                        ev << (th ? "e" : "E");
+                        if (th) throw std::runtime_error("x");
+                    });
+                    ev << "R";
+                }
+                catch (std::runtime_error const&)
+                {
+                    ev << "T";
+                }
+                tick();
+            }
+            std::printf("IN OSEQ %d %d %s\n", cs, K, plan.c_str());
+            std::printf("OUT OSEQ %d log=%s\n", cs, ev.str().c_str());
+        }
+        std::fflush(stdout);
+    }
 }    // namespace
 
 int main(int argc, char** argv)
@@ -497,6 +596,7 @@ int main(int argc, char** argv)
     std::thread wd(watchdog, 15000);
     vctl::Rng rng(seed);
     latch_sequential(rng, 200 * scale);
+    once_sequential(rng, 200 * scale);
     char* av[] = {argv[0], (char*) "--pika:threads=4", nullptr};
     int ac = 2;
     pika::start(ac, av);
@@ -508,6 +608,8 @@ int main(int argc, char** argv)
             latch_general(sched, rng, 300 * scale);
             std::fflush(stdout);
             once_cases(sched, rng, 200 * scale);
+            std::fflush(stdout);
+            once_retry_cases(sched, rng, 60 * scale);
             std::fflush(stdout);
             event_cases(sched, rng, 200 * scale);
             std::fflush(stdout);
